@@ -140,7 +140,13 @@ def run_property(prop, tier, seed, replay=None):
             d = core.compare_case(c, impl, model, prop.project, prop.compare_from(c))
             if d:
                 disagreements.append((c, d))
-            f = prop.oracle(c, impl.get(c.cid, {}), model.get(c.cid, {}))
+            li = impl.get(c.cid, {})
+            hung = [k for k, b in li.items() if b == "HANG"]
+            if hung:
+                f = {"kind": "hang", "event": hung[0],
+                     "detail": "the real code blocked for ever in this event (re-locked mutex / lost wakeup)"}
+            else:
+                f = prop.oracle(c, li, model.get(c.cid, {}))
             if f:
                 failures.append((c, f))
         failures += prop.cross_oracle(cases, impl, model)
@@ -159,6 +165,9 @@ def run_property(prop, tier, seed, replay=None):
             i2, m2 = rerun(cands)
             res = []
             for c in cands:
+                if kind == "hang":
+                    res.append(any(b == "HANG" for b in i2.get(c.cid, {}).values()))
+                    continue
                 f = prop.oracle(c, i2.get(c.cid, {}), m2.get(c.cid, {}))
                 res.append(bool(f) and f["kind"] == kind)
             return res
@@ -178,7 +187,7 @@ def run_property(prop, tier, seed, replay=None):
             continue
         small = shrink_failure(c, f["kind"])
         i2, m2 = rerun([small])
-        f2 = prop.oracle(small, i2.get(small.cid, {}), m2.get(small.cid, {})) or f
+        f2 = (f if f["kind"] == "hang" else None) or prop.oracle(small, i2.get(small.cid, {}), m2.get(small.cid, {})) or f
         sig = prop.signature(small, f2)
         done_sigs.add(pre)
         if sig in done_sigs and sig != pre:
